@@ -21,6 +21,8 @@ pub(super) struct IoLoopHandle {
     buf: OutputBuffer,
     tx: MioSyncSender<IoLoopMessage>,
     rx: CrossbeamReceiver<Result<ChannelMessage>>,
+    #[cfg(amiquip_verif)]
+    verif_serial: u64,
 }
 
 impl fmt::Debug for IoLoopHandle {
@@ -40,7 +42,42 @@ impl IoLoopHandle {
             buf: OutputBuffer::empty(),
             tx,
             rx,
+            #[cfg(amiquip_verif)]
+            verif_serial: 0,
         }
+    }
+
+    #[cfg(amiquip_verif)]
+    pub(super) fn verif_with_serial(mut self, serial: u64) -> IoLoopHandle {
+        self.verif_serial = serial;
+        self
+    }
+
+    #[cfg(amiquip_verif)]
+    fn verif_tag(&self, kind: crate::verif::ChanKind) -> crate::verif::ChanTag {
+        crate::verif::ChanTag {
+            serial: self.verif_serial,
+            channel_id: self.channel_id,
+            kind,
+        }
+    }
+
+    #[cfg(amiquip_verif)]
+    pub(super) fn verif_try_recv(
+        &self,
+    ) -> StdResult<Result<ChannelMessage>, crossbeam_channel::TryRecvError> {
+        self.rx.try_recv()
+    }
+
+    #[cfg(amiquip_verif)]
+    pub(super) fn verif_send_raw(&mut self, class: amq_protocol::protocol::AMQPClass) -> Result<()> {
+        struct Raw(amq_protocol::protocol::AMQPClass);
+        impl IntoAmqpClass for Raw {
+            fn into_class(self) -> amq_protocol::protocol::AMQPClass {
+                self.0
+            }
+        }
+        self.call_nowait(Raw(class))
     }
 
     #[inline]
@@ -136,12 +173,21 @@ impl IoLoopHandle {
     }
 
     fn send(&mut self, message: IoLoopMessage) -> Result<()> {
+        #[cfg(amiquip_verif)]
+        crate::verif::point(crate::verif::Point::BeforeSend {
+            chan: self.verif_tag(crate::verif::ChanKind::Main),
+        });
         self.tx
             .send(message)
             .map_err(|_| self.check_recv_for_error())
     }
 
     fn recv(&mut self) -> Result<ChannelMessage> {
+        #[cfg(amiquip_verif)]
+        crate::verif::before_recv(
+            &self.rx,
+            crate::verif::RecvKind::Reply(self.verif_serial, self.channel_id),
+        );
         self.rx.recv().map_err(|_| Error::EventLoopDropped)?
     }
 
@@ -191,10 +237,40 @@ impl IoLoopHandle0 {
         }
     }
 
+    #[cfg(amiquip_verif)]
+    pub(super) fn verif_alloc_send(&mut self, id: Option<u16>) -> StdResult<(), ()> {
+        self.alloc_chan_req_tx.send(id).map_err(|_| ())
+    }
+
+    #[cfg(amiquip_verif)]
+    pub(super) fn verif_alloc_recv(&mut self) -> Result<IoLoopHandle> {
+        self.alloc_chan_rep_rx
+            .try_recv()
+            .map_err(|_| Error::EventLoopDropped)?
+    }
+
+    #[cfg(amiquip_verif)]
+    pub(super) fn verif_connection_close_send(&mut self) -> Result<()> {
+        let close = ConnectionClose {
+            reply_code: 200,
+            reply_text: "goodbye".to_string(),
+            class_id: 0,
+            method_id: 0,
+        };
+        let buf = self.common.make_buf(AmqpConnection::Close(close));
+        self.common.send(IoLoopMessage::ConnectionClose(buf))
+    }
+
     pub(super) fn allocate_channel(&mut self, channel_id: Option<u16>) -> Result<IoLoopHandle> {
+        #[cfg(amiquip_verif)]
+        crate::verif::point(crate::verif::Point::BeforeSend {
+            chan: self.common.verif_tag(crate::verif::ChanKind::Alloc),
+        });
         self.alloc_chan_req_tx
             .send(channel_id)
             .map_err(|_| self.common.check_recv_for_error())?;
+        #[cfg(amiquip_verif)]
+        crate::verif::before_recv(&self.alloc_chan_rep_rx, crate::verif::RecvKind::AllocReply);
         self.alloc_chan_rep_rx
             .recv()
             .map_err(|_| Error::EventLoopDropped)?
@@ -204,6 +280,10 @@ impl IoLoopHandle0 {
         &mut self,
         tx: CrossbeamSender<ConnectionBlockedNotification>,
     ) -> Result<()> {
+        #[cfg(amiquip_verif)]
+        crate::verif::point(crate::verif::Point::BeforeSend {
+            chan: self.common.verif_tag(crate::verif::ChanKind::Blocked),
+        });
         self.set_blocked_tx
             .send(tx)
             .map_err(|_| self.common.check_recv_for_error())
